@@ -541,7 +541,7 @@ def generate(ctx):
                 cases.append(dict(m, backend=b, solver=sv, vectorize=True, ipv=(i % 3 != 2), precision="float64", mid=f"vec{i}"))
         for b in ["default"] + (["fortran"] if i < n_vec_f else []):
             cases.append(dict(m, backend=b, solver="euler", vectorize=False, ipv=True, precision="float64", mid=f"vec{i}"))
-    # roll-based delay buffer (no Spec here: the delay semantics is C09's subject; exact agreement across backends per vectorize setting;
+    # roll-based delay buffer (no Spec here: the delay semantics is C09's subject; exact agreement across backends AND across vectorize on/off (possible since fix_D70);
     # jax must refuse)
     n_del, n_del_f = (3, 1) if q else (24, 4)
     for i in range(n_del):
@@ -612,7 +612,6 @@ Definition p_okI (e : backend * popsys * Qc * nat * nat * row * list row) :=
   let '(b, s, dt, steps, ss, y0, o) := e in rows_eqb (pop_run_impl b s dt steps ss y0) o.
 Definition p_okS (e : backend * popsys * Qc * nat * nat * row * list row) :=
   let '(b, s, dt, steps, ss, y0, o) := e in rows_eqb (pop_run_spec s dt steps ss y0) o.
-Definition p_guard (e : backend * popsys * Qc * nat * nat * row * list row) := let '(b, s, dt, steps, ss, y0, o) := e in torch_wsum_free b s.
 (* cross-backend agreement without a Spec (delay buffers) *)
 Definition x_ok (e : list row * list row) := rows_eqb (fst e) (snd e).
 (* hooks: (base, ints, rendered ints, ranges, rendered ranges, var values, calls, values after, roll v, k, observed, fortran shift) *)
@@ -705,7 +704,7 @@ def entries(case, out):
 
 STREAMS = {  # stream -> (okI, okS, guard or None)
     "I": ("i_okI", "i_okS", "i_guard"), "R": ("r_okI", "r_okS", None), "N": ("n_ok", "n_ok", None),
-    "T": ("t_okI", "t_okS", "t_guard"), "P": ("p_okI", "p_okS", "p_guard"), "X": ("x_ok", "x_ok", None), "H1": ("h_idx", "h_idx", None), "H2": ("h_rngI", "h_rngS", None),
+    "T": ("t_okI", "t_okS", "t_guard"), "P": ("p_okI", "p_okS", None), "X": ("x_ok", "x_ok", None), "H1": ("h_idx", "h_idx", None), "H2": ("h_rngI", "h_rngS", None),
     "H3": ("h_var", "h_var", None), "H4": ("h_roll", "h_roll", None), "H5": ("h_shiftI", "h_shiftS", None)}
 
 def model_compare(ctx, cases, outs, tag):
@@ -717,7 +716,7 @@ def model_compare(ctx, cases, outs, tag):
     groups = {}
     for ci, (c, o) in enumerate(zip(cases, outs)):
         if c["kind"] == "traj" and c.get("nospec") and "rows" in o:
-            groups.setdefault((c["mid"], c["vectorize"]), []).append(ci)
+            groups.setdefault(c["mid"], []).append(ci)
     for grp in groups.values():
         ref = grp[0]
         for ci in grp[1:]:
@@ -854,9 +853,6 @@ def check(ctx):
         cases = corpus + generate(ctx)
     outs, badI, badS, gfalse, crashed, notes = run_cases(ctx, cases, "main")
     guard_viol = {i: ["heun_time_free"] for i in gfalse if cases[i]["kind"] == "traj"}
-    for i, c in enumerate(cases):          # torch + coupling template: the model cannot be compiled at all (finding D40)
-        if c["kind"] == "pop" and c["backend"] == "torch" and any(k["kind"] for k in c["conns"]):
-            guard_viol[i] = ["torch_wsum_free"]
     kinds = {}
     for c in cases:
         key = c["kind"] + ("/support" if c.get("support") else "")
@@ -894,8 +890,8 @@ def check(ctx):
                    rule="a case is one (model, backend, option) run: interp case = dyadic grid (power-of-two spacings) x queries inside/outside/on "
                         "grid points x routes (direct helpers and the compiled vector field of a model with an extrinsic input on each backend); net = "
                         "random polynomial 2-4 node network at 4 dyadic points with k overridden by frontend name; traj = run() on a linear model; "
-                        "vectorized traj = two classes x 2-4 units, dense block + sparse edges, optional delayed edge (d = 2..3 steps, compared across backends per vectorize "
-                        "setting, jax must raise NotImplementedError); pop = two populations, one matvec connection and one coupling-template connection; "
+                        "vectorized traj = two classes x 2-4 units, dense block + sparse edges, optional delayed edge (d = 2..3 steps, compared across backends and across vectorize on/off, "
+                        "jax must raise NotImplementedError); pop = two populations, one matvec connection and one coupling-template connection; "
                         "hooks = direct calls of the index/roll hooks. Non-trivial: pop with a coupling template; interp with >= 1 query strictly inside an interval; net with >= 1 edge "
                         "and a monomial of degree >= 2; traj on a non-default backend / heun / vectorized; hooks on a 1-based backend or a non-identity roll. "
                         "distinct = distinct canonical JSON",
@@ -911,6 +907,6 @@ def check(ctx):
                                 "guard heun_time_free (finding D16): textbook Heun evaluates the corrector at t+dt, which is what JaxBackend._solve_heun does (k2 = func(t+1, y_pred)); "
                                 "BaseBackend._solve_heun (default, fortran) evaluates both stages at t. The two agree exactly for autonomous systems (C02_heun_partial) and differ for "
                                 "time-dependent inputs; run_spec follows the default backend's convention only to have one reference - which backend deviates is a maintainer decision",
-                                "guard torch_wsum_free (finding D40): torch cannot compile a coupling EdgeTemplate; the stream demands exactly that TypeError there",
-                                "delayed edges: no Spec in this property (C09); only exact agreement default = torch (= fortran) per vectorize setting and the jax refusal are checked",
+                                "D61 (repaired): torch compiles coupling EdgeTemplates since fix_D61; corpus/C02/D61_torch_wsum.json is the regression case (torch rows = Spec rows)",
+                                "delayed edges: no Spec in this property (C09); only exact agreement default = torch = fortran, vectorized = scalar, and the jax refusal are checked",
                                 "IEEE rounding is outside the model: the model computes in Qc"])
